@@ -120,6 +120,9 @@ func StrProps(propContainer map[string]object.PanObject) map[string]object.PanOb
 						fmt.Sprintf("%s is not positive", args[1].Repr()))
 				}
 
+				if err := verifAlloc(int64(len(self.Value)), n); err != nil {
+					return err
+				}
 				res := strings.Repeat(self.Value, int(n))
 				// NOTE: Str's descendants also call this
 				return object.NewInheritedStr(args[0].Proto(), res)
